@@ -26,6 +26,7 @@ import (
 	"go.sia.tech/core/consensus"
 	"go.sia.tech/core/types"
 	"pgregory.net/rapid"
+	"verif/harness/gen"
 	"verif/harness/sim"
 	"verif/harness/stats"
 )
@@ -443,6 +444,9 @@ func checkBlock(ch *sim.Chain, b types.Block, bs consensus.V1BlockSupplement, la
 			// an adversarial block with unsound proofs does not survive it unchanged: nothing to compare
 			rec.Label("provenance:binary-copy-undefined-for-invalid-proofs")
 		} else if err == nil {
+			if herr := gen.AppendHazard(reflect.ValueOf(&bc).Elem()); herr != nil {
+				return stats.Failf("C09/provenance/binary-copy", "the decoded copy shares mutable memory between its own elements: %v (%s)", herr, label)
+			}
 			if o := run(ch, bc, bs); !o.equal(first) {
 				return stats.Failf("C09/provenance/binary-copy", "decode(encode(b)) behaves differently: %q vs %q (%s)", first.verdict, o.verdict, label)
 			}
@@ -455,6 +459,9 @@ func checkBlock(ch *sim.Chain, b types.Block, bs consensus.V1BlockSupplement, la
 			for i := range dc.V2.Transactions {
 				dc.V2.Transactions[i] = b.V2.Transactions[i].DeepCopy()
 			}
+		}
+		if herr := gen.AppendHazard(reflect.ValueOf(&dc).Elem()); herr != nil {
+			return stats.Failf("C09/copy-isolation", "DeepCopy returns transactions whose lists share memory with spare capacity: %v (%s)", herr, label)
 		}
 		if o := run(ch, dc, bs); !o.equal(first) {
 			return stats.Failf("C09/provenance/deep-copy", "DeepCopy of the transactions behaves differently: %q vs %q (%s)", first.verdict, o.verdict, label)
